@@ -9,6 +9,7 @@
 -/
 import SfModel.Meta
 import SfModel.MetaX
+import SfModel.MetaFix
 open Sf Sf.Meta Sf.MetaX
 namespace MetaCmd
 
@@ -103,10 +104,8 @@ def xMetaLine (st : St) : String :=
   let tab := loadAll (xStrings st)
   let strs := strTypes.map fun (ty : Nat) =>
     " s" ++ toString ty ++ "=" ++ (match get tab (ty : Int) with | some s => hexBytes s | none => "null")
-  let cues : Option (List Cue) :=
-    if h.cont = .aiff ∧ h.inst.isNone then
-      h.cues.bind fun cs => (readMarks (writeMarks (cs.map markOfCue))).map fun ms => ms.map cueOfMark
-    else none
+  -- repaired aiff_write_header: MARK is written whenever there are cue points (Sf.MetaFix.aiffCues)
+  let cues : Option (List Cue) := if h.cont = .aiff then Sf.MetaFix.aiffCues h.inst.isSome h.cues else none
   let cuesS := match cues with
     | some cs => " cuecount=1:" ++ toString cs.length ++ " cues=1:" ++ toString cs.length ++ ":" ++ ",".intercalate (cs.map tokOfCue)
     | none => " cuecount=0:0 cues=0:"
@@ -124,7 +123,9 @@ def metaLine (st : St) : String :=
     " s" ++ toString ty ++ "=" ++ (match get tab (ty : Int) with | some s => hexBytes s | none => "null")
   let bext := match r.bext with | some b => "1:" ++ hexBytes (structOfBext b) | none => "0:"
   let cart := match r.cart with | some c => "1:" ++ hexBytes (structOfCart c) | none => "0:"
-  let cues := match r.cues with
+  -- repaired wav_write_header: the names travel in LIST/adtl/labl (Sf.MetaFix.reopenCues); rf64.c writes no cue chunk
+  let rcues := if st.h.cont = .rf64 then none else st.h.cues.bind Sf.MetaFix.reopenCues
+  let cues := match rcues with
     | some cs => " cuecount=1:" ++ toString cs.length ++ " cues=1:" ++ toString cs.length ++ ":" ++ ",".intercalate (cs.map tokOfCue)
     | none => " cuecount=0:0 cues=0:"
   let inst := match r.inst with | some i => "1:" ++ hexBytes (structOfInst i) | none => "0:"
